@@ -319,7 +319,7 @@ impl Property for P {
             nontrivial: n,
             info: json!({
                 "exhaustive": true,
-                "what": "all Unicode scalar values except ESC: alone, as the payload of an OSC sequence, and as the first byte after a CSI introducer",
+                "what": "all Unicode scalar values except ESC: alone, as the payload of an OSC sequence, as the first byte after a CSI introducer, and next to the characters sharing its low 8 / low 16 bits (both orders)",
                 "evaluations_in_sweep": n,
                 "width_histogram": {"0": hist[0], "1": hist[1], "2": hist[2], "3+": hist[3]},
                 "multi_column_chars_with_width_equal_to_utf8_len": tight,
